@@ -171,8 +171,12 @@ ENUMS["tabdesp"] = dict(subst=dict(Bundles="B_Desp", InitOps="Init_TabDesp"),
 ENUMS["tabworld"] = dict(subst=dict(Bundles="B_World1", InitOps="Init_Ins"),
                          consts=C(NSys=1, NW=1, NER=1, NEnt=1, NVal=2, OpNames={"eadd", "erem", "wadd", "wrem", "mut", "eev", "bc"},
                                   MaxOps=3, BodyOps=0, Budget=3, MaxSteps=3, FinalStep="clear"))
+# every tree of plain commands and system events over two systems with up to five ops (bodies up to three): all shapes of
+# self- and mutual recursion with several deliveries pending for two busy systems at once
+ENUMS["treesys"] = dict(subst=dict(Bundles="B_One", InitOps="NoOps"), budget=dict(quick=5, thorough=6),
+                        consts=C(NSys=2, OpNames={"run", "sysev"}, MaxOps=1, BodyOps=3, Budget=5, MaxSteps=1))
 PROP_ENUMS = {
-    "C01": ["tabcomp", "tabev"], "C06": ["tabcomp", "tabev"], "C07": ["tabev", "tabmix", "tabcomp"], "C15": ["tabev", "tabcomp"],
+    "C01": ["tabcomp", "tabev"], "C06": ["tabcomp", "tabev"], "C07": ["tabev", "tabmix", "tabcomp"], "C15": ["tabev", "tabcomp", "tabdesp"], "C11": ["tabdesp"], "C12": ["treesys"], "C02": ["treesys"], "C09": ["treesys"],
     "C16": ["tabworld"], "C18": ["tabmix"], "C08": ["tabmix", "tabrem", "tabdesp"],
 }
 
@@ -186,7 +190,7 @@ PROP_GROUPS = {
     "C06": ["reg", "comp"],
     "C07": ["reg", "comp", "hier"],
     "C08": ["comp", "mix", "hier"],
-    "C09": ["run", "ev", "burst"],
+    "C09": ["run", "ev", "burst", "mix"],
     "C11": ["run", "reg", "mix"],
     "C12": ["run", "burst", "ev", "erburst"],
     "C13": ["run", "reg", "long"],
